@@ -111,6 +111,7 @@ func runC20(c *sim.Ctx) {
 	c.Log.Add("sim", "plan", "files=%d goroutines=%d mode=%s", nfiles, ng, mode)
 	c.Sample = map[string]interface{}{"files": nfiles, "goroutines": ng, "mode": mode}
 	c.Nontrivial = true
+	c.State(mode, nfiles, ng)
 
 	if mode == "parallel" {
 		// E-RACE: free running goroutines, own handles; plus a database/sql pool
